@@ -244,6 +244,8 @@ func genScenario(seed uint64, tier string, id int) Scenario {
 			return genPrepSwitchScenario(r, maxN, id)
 		case 1:
 			return genWideScenario(r, tier, id)
+		case 9:
+			return genSetEnabledScenario(r, maxN, id)
 		}
 	}
 	if id < 2*grid {
@@ -296,7 +298,7 @@ func genScenario(seed uint64, tier string, id int) Scenario {
 		f := isFail(m, ph)
 		b.DelayUs = delay(r, sc.Delays, ph, f)
 		if f {
-			b.Fail = vlib.Pick(r, "err", "err", "panic", "panic-err")
+			b.Fail = vlib.Pick(r, "err", "err", "panic", "panic-err", "err-wrapped", "err-canceled", "err-wrapped-canceled", "err-canceled", "err-deadline", "err-cleanexit", "err-restart", "err-typed-nil")
 			b.FailFirst = vlib.Pick(r, -1, -1, 1)
 		} else if r.Chance(1, 14) && ph != "start" {
 			// production modules often have no prep or no stop function
@@ -419,6 +421,9 @@ func genScenario(seed uint64, tier string, id int) Scenario {
 				op := "enable"
 				if r.Chance(2, 5) {
 					op = "disable"
+				}
+				if r.Chance(1, 3) { // the same request through SetEnabled(bool)
+					op = map[string]string{"enable": "set-on", "disable": "set-off"}[op]
 				}
 				sc.Steps = append(sc.Steps, Step{Op: op, Mod: modName(r.Intn(n))})
 			}
@@ -575,7 +580,7 @@ func genWideScenario(r *vlib.Rand, tier string, id int) Scenario {
 	vlib.Shuffle(r, perm)
 	nFail := r.Range(1, 3)
 	for _, i := range perm[:nFail] {
-		mods[i].Start.Fail = vlib.Pick(r, "err", "err", "panic", "panic-err")
+		mods[i].Start.Fail = vlib.Pick(r, "err", "err", "panic", "panic-err", "err-wrapped", "err-canceled", "err-wrapped-canceled", "err-canceled", "err-deadline", "err-cleanexit", "err-restart", "err-typed-nil")
 		mods[i].Start.FailFirst = -1
 		mods[i].Start.DelayUs = r.Range(0, 60) // a failing report takes longer to produce
 	}
@@ -591,6 +596,69 @@ func genWideScenario(r *vlib.Rand, tier string, id int) Scenario {
 		for _, i := range order {
 			sc.Wide.Order = append(sc.Wide.Order, modName(i))
 		}
+	}
+	vlib.Shuffle(r, mods)
+	sc.Mods = mods
+	return sc
+}
+
+// genSetEnabledScenario builds a fault-free life with management on in which a module
+// D that is online as a dependency of an enabled module X is switched with
+// SetEnabled(bool); then X is disabled and a pass decides whether D stays.
+func genSetEnabledScenario(r *vlib.Rand, maxN, id int) Scenario {
+	sc := Scenario{ID: id, FailPhase: "none", Delays: "small", Mgmt: true, Notify: r.Bool()}
+	var deps [][]int
+	for {
+		sc.Family = vlib.Pick(r, "chain", "fanin", "fanout", "diamond", "layered", "forest", "random")
+		deps = genGraph(r, sc.Family, maxN)
+		edges := 0
+		for _, d := range deps {
+			edges += len(d)
+		}
+		if len(deps) >= 2 && edges > 0 {
+			break
+		}
+	}
+	n := len(deps)
+	mods := make([]ModSpec, n)
+	var withDeps []int
+	for i := 0; i < n; i++ {
+		ms := ModSpec{Name: modName(i)}
+		for _, d := range deps[i] {
+			ms.Deps = append(ms.Deps, modName(d))
+		}
+		ms.Prep = Behav{DelayUs: r.Range(0, 500)}
+		ms.Start = Behav{DelayUs: r.Range(0, 2000)}
+		ms.Stop = Behav{DelayUs: r.Range(0, 2000)}
+		mods[i] = ms
+		if len(deps[i]) > 0 {
+			withDeps = append(withDeps, i)
+		}
+	}
+	x := withDeps[r.Intn(len(withDeps))]
+	d := deps[x][r.Intn(len(deps[x]))]
+	sc.InitEnable = []string{modName(x)}
+	dOn := r.Bool()
+	if dOn {
+		sc.InitEnable = append(sc.InitEnable, modName(d))
+	}
+	for i := 0; i < n; i++ {
+		if i != x && i != d && r.Chance(1, 5) {
+			sc.InitEnable = append(sc.InitEnable, modName(i))
+		}
+	}
+	set := "set-on"
+	if dOn {
+		set = "set-off"
+	}
+	sc.Steps = append(sc.Steps, Step{Op: set, Mod: modName(d)})
+	if r.Bool() {
+		sc.Steps = append(sc.Steps, Step{Op: "manage"})
+	}
+	sc.Steps = append(sc.Steps, Step{Op: vlib.Pick(r, "disable", "set-off"), Mod: modName(x)}, Step{Op: "manage"})
+	for rounds := r.Range(0, 2); rounds > 0; rounds-- {
+		op := vlib.Pick(r, "enable", "set-on", "disable", "set-off")
+		sc.Steps = append(sc.Steps, Step{Op: op, Mod: modName(r.Intn(n))}, Step{Op: "manage"})
 	}
 	vlib.Shuffle(r, mods)
 	sc.Mods = mods
